@@ -501,6 +501,8 @@ def history(seed, n_ops=25, profile=None):
         return reobserve_history(seed)
     if profile == "perkey":
         return perkey_history(seed)
+    if profile == "rhsheights":
+        return rhs_heights_history(seed)
     if isinstance(profile, str):
         profile = PROFILES[profile]
     rng = random.Random(seed)
@@ -603,6 +605,79 @@ def direct_recompute_history(seed):
         L.append("stabilise")
         L += [f"set {x} {rng.randrange(6)}" for x in range(1, nvars)]
         L += ["stabilise", "stats"]
+    return L
+
+
+def rhs_heights_history(seed):
+    """C02/C03/C11, scripted family around adjust_heights_bind_lhs_change: a bind (inner) whose left-hand side is
+    another bind (outer) that switches between nodes of different heights with equal values, so that inner's
+    lhs-change node is raised without inner's closure running again; inner's closure creates several nodes, some of
+    which it does not return (they are freed when it returns) in assorted positions; then rounds in which inner's
+    left-hand value and the inputs of its right-hand side change together."""
+    rng = random.Random(seed)
+    L = []
+    H = [0]
+
+    def node(line):
+        L.append(line)
+        H[0] += 1
+        return H[0] - 1
+    sel = node("var 0")
+    base = node(f"var {rng.randrange(1, 4)}")
+    extra = [node(f"var {rng.randrange(5)}") for _ in range(rng.choice([1, 1, 2]))]
+    # chains of identity maps of different lengths over base: equal values, different heights
+    tops = []
+    for ln in rng.sample([0, 1, 2, 4, 6, 9], rng.choice([2, 3])):
+        cur = base
+        for _ in range(ln):
+            cur = node(f"map 0 [] {cur}")
+        if cur == base:
+            cur = node(f"map 0 [] {base}")
+        tops.append(cur)
+    outer = node("bind %d { [] %s }" % (sel, " | ".join(f"ret o{x}" for x in tops)))
+    # inner: locals in assorted order, some never used in the result
+    def inner_template():
+        body, keep = [], []
+        n = rng.choice([2, 3, 3, 4])
+        for i in range(n):
+            r = rng.random()
+            src = rng.choice([f"o{rng.choice(extra)}"] + [f"l0.{k}" for k in keep])
+            if r < 0.4:
+                body.append(f"const {rng.randrange(3)}")       # scratch node
+            elif r < 0.8:
+                body.append(f"map {rng.choice([1, 2, 8])} [] {src}")
+                keep.append(i)
+            else:
+                body.append(f"map 1 [] o{rng.choice(extra)} {src}")
+                keep.append(i)
+        if not keep:
+            body.append(f"map 8 [] o{rng.choice(extra)}")
+            keep.append(len(body) - 1)
+        return " ; ".join(body) + f" ; ret l0.{keep[-1]}"
+    inner = node("bind %d { [] %s }" % (outer, " | ".join(inner_template() for _ in range(rng.choice([1, 2])))))
+    cons = inner
+    for _ in range(rng.choice([0, 1, 1, 2])):
+        cons = node(f"map {rng.choice([0, 1, 2])} [] {cons}")
+    L.append(f"observe {cons}")
+    if rng.random() < 0.3:
+        L.append(f"observe {outer}")
+    L.append("stabilise")
+    nvars = 2 + len(extra)
+    for _ in range(rng.choice([3, 4, 5, 6])):
+        r = rng.random()
+        if r < 0.45:
+            L.append(f"set 0 {rng.randrange(len(tops))}")            # outer switches: same value, other height
+        elif r < 0.85:
+            order = [f"set 1 {rng.randrange(1, 6)}"] + [f"set {2 + i} {rng.randrange(6)}" for i in range(len(extra)) if rng.random() < 0.8]
+            rng.shuffle(order)
+            L.extend(order)
+            if rng.random() < 0.3:
+                L.append(f"set 0 {rng.randrange(len(tops))}")
+        else:
+            L.append(f"set {rng.randrange(2, nvars)} {rng.randrange(6)}")
+        L.append("stabilise")
+        if rng.random() < 0.5:
+            L.append("read 0")
     return L
 
 
